@@ -1133,6 +1133,13 @@ class Run:
         variants.append(('pathlib-sniffed', pathlib.Path(put('copyq.dat',
                                                              data)), None))
         variants.append(('renamed', put('copy.dat', data), None))
+        # the same copy as the os.PathLike that os.scandir() hands out
+        try:
+            ent = [e for e in os.scandir(rb) if e.name == 'copy.dat'][0]
+            variants.append(('direntry-sniffed', ent, None))
+            variants.append(('direntry-format', ent, fmt))
+        except (OSError, IndexError):
+            pass
         variants.append(('renamed-noext', put('copy', data), None))
         for e in READ_GZ_EXT[fmt]:
             variants.append(('gz' + e, put('copy' + e, gz), None))
